@@ -32,6 +32,8 @@ def tokens_instr(i):
 
 
 def show_ret(r):
+    if isinstance(r, (tuple, list)):      # ('A', v): the step registers an awaitable through to_context() AND returns v
+        return f'v{r[1]}'
     return 'n' if r is None else 't' if r == 'T' else f'v{r}'
 
 
@@ -130,6 +132,11 @@ def build_workchain(block, tabs, name='GenChain'):
     def mk_step(f):
         def step(self):
             r = self._oracle.step(f)
+            if isinstance(r, (tuple, list)):
+                fut = self.loop.create_future()
+                fut.set_result(0)
+                self.to_context(extra=fut)      # an awaitable is registered, yet the value must stop the chain at once
+                return r[1]
             return plumpy.ToContext() if r == 'T' else r
         step.__name__ = f's{f}'
         return step
@@ -312,7 +319,7 @@ def random_tabs(rng, ids=4, stop_prob=0.08):
         vals = []
         for _ in range(n):
             r = rng.random()
-            vals.append(rng.randint(0, 9) if r < stop_prob else 'T' if r < 0.35 else None)
+            vals.append(rng.randint(0, 9) if r < stop_prob else ('A', rng.randint(0, 9)) if r < stop_prob + 0.04 else 'T' if r < 0.35 else None)
         tabs['S'][f] = vals
     for p in range(ids + 8):
         n = rng.randint(0, 5)
